@@ -61,7 +61,8 @@ def build_case(u):
     # history: sometimes another walk (other base, other method) runs first on the same session
     prior = None
     if u.below(3) == 0 and names:
-        pm = u.choice(["getnext", "getbulk"]) if cfg.version != "v1" else "getnext"
+        # 'getbulk1': only the first item of a bulk walk is consumed, the rest stays buffered in the abandoned iterator
+        pm = u.choice(["getnext", "getbulk", "getbulk1", "getbulk1"]) if cfg.version != "v1" else "getnext"
         pn = names[u.below(len(names))]
         prior = (pm, pn[:u.range(2, len(pn))] if len(pn) > 2 else pn)
     return {"cfg": cfg, "mib": mib, "base": base, "method": method, "driver": driver, "maxrep": u.range(1, 50),
@@ -127,14 +128,22 @@ def execute(G, c):
     calls = [call]
     if c.get("prior"):
         pm, pb = c["prior"]
-        calls.insert(0, ("getnext", rb.oid_text(pb)) if pm == "getnext" else ("getbulk", rb.oid_text(pb), 7))
+        calls.insert(0, ("getnext", rb.oid_text(pb)) if pm == "getnext" else ((pm, rb.oid_text(pb), 7)))
     outs = drivers.run_calls(G, c["driver"], cfg, calls, handler, timeout=2.0, max_steps=len(c["mib"]) + 3, max_items=len(c["mib"]) + 5,
                              **({"session_kw": kw["session_kw"]} if "session_kw" in kw else {}))
     if len(outs) == 2:
         pb = c["prior"][1]
         pexp = [rb.oid_text(n) for n in sorted(c["mib"]) if len(n) > len(pb) and n[:len(pb)] == pb]
         po = outs[0]
-        if po.kind != "ok" or [g[0] for g in po.value] != pexp:
+        if c["prior"][0] == "getbulk1":
+            # one item (or the end of the walk) - whatever the driver's shape for a single step is
+            first = None
+            if po.kind == "ok":
+                v = po.value
+                first = v[0][0] if isinstance(v, list) and v and v[0] is not None else (v[0] if isinstance(v, tuple) else None)
+            if (pexp and first != pexp[0]) or (not pexp and po.kind == "ok" and first is not None):
+                raise core.Failure("prior-walk-wrong", "first step of %r gave %r, subtree starts %r" % (calls[0], po, pexp[:2]))
+        elif po.kind != "ok" or [g[0] for g in po.value] != pexp:
             raise core.Failure("prior-walk-wrong", "first walk %r on the session gave %r, subtree is %r" % (calls[0], po, pexp[:8]))
         counter["n"] = len(outs[1].requests)
     out = outs[-1]
